@@ -169,7 +169,7 @@ def rel_events(run, groups, prop):
 
 def c06(tier):
     run = Run("C06", tier)
-    n = 1000 if tier == "quick" else 40000
+    n = 1000 if tier == "quick" else 150000
     run.rule = ("pairs (base, shifted) of legend-free inputs: random grids over the full drawing vocabulary incl. "
                 "Unicode glyphs, parametric shapes, paragraphs of the bundled examples; offsets: one small "
                 "(k,n<=8), one medium, one up to 400x200 per base; TLC checks the input relation and the document "
@@ -200,7 +200,7 @@ def c06(tier):
 
 def c10(tier):
     run = Run("C10", tier)
-    n = 900 if tier == "quick" else 60000
+    n = 900 if tier == "quick" else 200000
     run.rule = ("triples (A, B, A|B) with A, B legend-free, tag-free, quote-free diagrams (random grids over the "
                 "full vocabulary, shapes, bundled paragraphs) placed side by side or stacked with gaps 1..3; TLC "
                 "checks the juxtaposition of the inputs and then UnionDoc; non-trivial = juxtaposed document non-empty")
@@ -282,7 +282,7 @@ SCALES = [0.5, 1, 3, 10, 20, 37.5]
 
 def c11(tier):
     run = Run("C11", tier)
-    n = 500 if tier == "quick" else 30000
+    n = 500 if tier == "quick" else 100000
     run.rule = ("each input is converted at scale 8 and at scales {0.5,1,3,10,20,37.5} (2 of them per input in the "
                 "quick tier); documents are recorded in lattice units (numbers divided exactly by scale/8), so "
                 "ScaledDoc is bag equality up to 1/1000 cell; inputs contain grouped and free lines, rects with and "
@@ -334,7 +334,7 @@ LEGENDS = ["# Legend:\na = {fill:red}\n", "# Legend:\nbig = {stroke:blue; fill:n
 
 def c17(tier):
     run = Run("C17", tier)
-    n = 500 if tier == "quick" else 30000
+    n = 500 if tier == "quick" else 100000
     run.rule = ("each input (with and without legend, quoted text, wide characters) is converted as is and in "
                 "variants: LF/CRLF x random trailing blanks/tabs per line x 0..5 trailing blank lines; TLC checks "
                 "EolVariant of the inputs (same rows once CR and trailing blanks are removed) and SameDoc (same "
